@@ -9,9 +9,19 @@
    for every text, codec oracle, --prefixcount setting and every fuel above the
    number of lines: the generator ends normally, never out of fuel, having
    yielded exactly the model's passwords and with the model's two counters.
-   The proofs run the generated text symbolically (case analysis on the
-   conditions the model tests) and capture loop bodies from the goal, so they
-   do not depend on the names of locals, on comments or on formatting. *)
+   The proofs run the generated text symbolically (case analysis on whatever
+   condition is next, normalised to the form the model tests), capture the loop
+   conditions and bodies from the goal, and find the local that holds the line
+   being read / the value yielded by what the code does with it (with_proj)
+   rather than by its name or its position among the locals: they do not depend
+   on the names, number or order of the locals, on comments or formatting, on
+   `x += e` vs `x = x + e`, `not s` vs `s == ''`, merged or nested ifs, or on the
+   order of independent tests.
+
+   Parts: runtime facts - check_valid - re-joining the pieces of a line (glue,
+   pure lists) - the line-level meaning of one run (Rd) and the two loops for
+   any frame (glue_loop, read_loop) - read_password_spec (the symbolic run) -
+   the instantiation at the file a text decodes to. *)
 From Coq Require Import List NArith ZArith Bool Lia.
 From Pcfg Require Import TextFile Reader TextFileProofs ReaderProofs IoCorr IoFacts ReaderRt.
 From PcfgGen Require Import Consts_gen Reader_gen.
@@ -154,7 +164,7 @@ Theorem py_check_valid_is_model : forall p,
 Proof.
   intro p. destruct p as [|c0 p0]; [vm_compute; reflexivity|].
   unfold py_check_valid. eval_ranges.
-  cbv [py_chr]. cbn [pfor Z.to_N]. rewrite ?substr_single.
+  cbv [py_chr]. cbn [pfor existsb forallb Z.to_N]. rewrite ?substr_single.
   replace (Z.eqb (zlen (c0 :: p0)) 0) with false by (symmetry; apply Z.eqb_neq; unfold zlen; simpl length; lia).
   cbn [nonempty negb].
   set (p := c0 :: p0). set (R := check_valid check_valid_rejected check_valid_rejects_empty p).
@@ -338,33 +348,35 @@ Section Spec.
 
   (* ---------------------------------------------------------------- the two loops, for any frame layout *)
 
-  Lemma glue_loop {F} (getp : F -> str) (setp : str -> str -> F -> F) (cond : F -> M bool) (body : F -> M (ctl F unit)) :
-    (forall p m f, getp (setp p m f) = p) ->
+  Lemma glue_loop {F} (getp : F -> str) (cond : F -> M bool) (body : F -> M (ctl F unit)) :
     (forall f s, cond f s = Ok (nonempty (getp f) && negb (ends_ec ec (getp f))) s) ->
-    (forall f s, body f s = match o_file s with
-                            | [] => Ok (Break (setp (getp f) [] f)) s
-                            | RErr :: r => Ok (Break f) (set_file r s)
-                            | RLine m :: r => if is_nil m then Ok (Break (setp (getp f) m f)) (set_file r s)
-                                              else Ok (Normal (setp (getp f ++ m) m f)) (set_file r s)
-                            end) ->
+    (forall f s, match o_file s with
+                 | [] => exists f', body f s = Ok (Break f') s /\ getp f' = getp f
+                 | RErr :: r => exists f', body f s = Ok (Break f') (set_file r s) /\ getp f' = getp f
+                 | RLine m :: r =>
+                     if is_nil m then exists f', body f s = Ok (Break f') (set_file r s) /\ getp f' = getp f
+                     else exists f', body f s = Ok (Normal f') (set_file r s) /\ getp f' = getp f ++ m
+                 end) ->
     forall fuel f s, (length (o_file s) < fuel)%nat ->
       exists f', rwhile fuel cond body f s = Ok (Normal f') (set_file (snd (absorb (getp f) (o_file s))) s)
                  /\ getp f' = fst (absorb (getp f) (o_file s)).
   Proof.
-    intros Hgs Hc Hb. induction fuel as [|k IH]; intros f s Hlen; [inversion Hlen|].
+    intros Hc Hb. induction fuel as [|k IH]; intros f s Hlen; [inversion Hlen|].
     cbn [rwhile]. unfold bind at 1. rewrite Hc.
     destruct (nonempty (getp f) && negb (ends_ec ec (getp f))) eqn:Ec.
     - assert (Ea : is_nil (getp f) || ends_ec ec (getp f) = false).
       { rewrite nonempty_is_nil in Ec. destruct (is_nil (getp f)), (ends_ec ec (getp f)); simpl in *; congruence. }
-      unfold bind at 1. rewrite Hb.
+      unfold bind at 1. specialize (Hb f s).
       destruct (o_file s) as [|[m|] r] eqn:Ef; cbn [absorb]; rewrite Ea.
-      + exists (setp (getp f) [] f). cbn [snd fst ret]. rewrite <- Ef, set_file_id. split; [reflexivity | apply Hgs].
+      + destruct Hb as (f' & Eb & Eg). rewrite Eb. exists f'. cbn [snd fst ret]. rewrite <- Ef, set_file_id.
+        split; [reflexivity | exact Eg].
       + destruct (is_nil m) eqn:Em.
-        * exists (setp (getp f) m f). cbn [snd fst ret]. split; [reflexivity | apply Hgs].
-        * destruct (IH (setp (getp f ++ m) m f) (set_file r s)) as [f' [E1 E2]].
+        * destruct Hb as (f' & Eb & Eg). rewrite Eb. exists f'. cbn [snd fst ret]. split; [reflexivity | exact Eg].
+        * destruct Hb as (f1 & Eb & Eg). rewrite Eb.
+          destruct (IH f1 (set_file r s)) as [f' [E1 E2]].
           { cbn [o_file set_file]. simpl in Hlen. apply Nat.succ_lt_mono. exact Hlen. }
-          exists f'. rewrite Hgs in E1, E2. cbn [o_file set_file] in E1, E2. split; [exact E1 | exact E2].
-      + exists f. cbn [snd fst ret]. split; reflexivity.
+          exists f'. rewrite Eg in E1, E2. cbn [o_file set_file] in E1, E2. split; [exact E1 | exact E2].
+      + destruct Hb as (f' & Eb & Eg). rewrite Eb. exists f'. cbn [snd fst ret]. split; [reflexivity | exact Eg].
     - assert (Ea : is_nil (getp f) || ends_ec ec (getp f) = true).
       { rewrite nonempty_is_nil in Ec. destruct (is_nil (getp f)), (ends_ec ec (getp f)); simpl in *; congruence. }
       exists f. destruct (o_file s) as [|x r] eqn:Ef; cbn [absorb]; rewrite Ea; cbn [snd fst ret];
@@ -462,3 +474,244 @@ Section Spec.
           apply IH; [simpl in Hn; lia | apply absorb_l_forall; exact Hr].
   Qed.
 End Spec.
+
+(* ================================================================ read_password *)
+
+(* the interpreter's code point classes, probed on every run (gen/Consts_gen.v) *)
+Definition ENV : pyenv := {| e_ws := WS; e_iws := IWS; e_dz := DZ |}.
+
+Definition rinv (cd : codec) (prefix : bool) (fuel : nat) (s : robj) : Prop :=
+  o_prefixcount s = prefix /\ o_encoding s = cd /\ (length (o_file s) < fuel)%nat.
+
+Ltac rt_unfold :=
+  cbv beta iota zeta delta
+    [bind ret raise lift getf modf try_catch on_normal fn_end file_readline file_close yield_ exn_is exn_reason
+     o_encoding o_filename o_file o_num_encoding_errors o_num_passwords o_duplicates_found o_duplicate_detection
+     o_num_to_look_for_duplicates o_prefixcount o_yielded
+     set_encoding set_filename set_file set_num_encoding_errors set_num_passwords set_duplicates_found
+     set_duplicate_detection set_num_to_look_for_duplicates set_prefixcount set_yielded
+     py_int py_fromhex py_decode py_encode_check Bool.eqb negb].
+
+Ltac destruct_scrut :=
+  match goal with
+  | |- context [match ?x with _ => _ end] =>
+      lazymatch x with
+      | context [match _ with _ => _ end] => fail
+      | _ => destruct x eqn:?; try discriminate
+      end
+  end.
+
+Ltac rt_unfold_in H :=
+  cbv beta iota zeta delta
+    [bind ret raise lift getf modf try_catch on_normal fn_end file_readline file_close yield_ exn_is exn_reason
+     o_encoding o_filename o_file o_num_encoding_errors o_num_passwords o_duplicates_found o_duplicate_detection
+     o_num_to_look_for_duplicates o_prefixcount o_yielded
+     set_encoding set_filename set_file set_num_encoding_errors set_num_passwords set_duplicates_found
+     set_duplicate_detection set_num_to_look_for_duplicates set_prefixcount set_yielded
+     py_int py_fromhex py_decode py_encode_check Bool.eqb negb] in H.
+
+(* the locals of a function travel as one tuple: split every tuple in the context into its components *)
+Ltac destruct_pairs := repeat match goal with x : (_ * _)%type |- _ => destruct x end.
+
+(* [with_proj F T proj tac]: runs [tac] on the projections F -> _ to the components of the tuple type T
+   (reached from F by [proj]), rightmost first, until one succeeds - the proofs find the local that plays a
+   given role (the line being read, the value yielded) by what the code does with it, not by its position *)
+Ltac with_proj F T proj tac :=
+  lazymatch T with
+  | (?A * ?B)%type =>
+      first [ tac constr:(fun f : F => snd (proj f)) | with_proj F A constr:(fun f : F => fst (proj f)) tac ]
+  | _ => tac proj
+  end.
+
+Ltac use_inner INNER IL :=
+  match goal with
+  | |- context [IL ?f ?st] =>
+      let f' := fresh "f'" in
+      let E1 := fresh "E1" in
+      let E2 := fresh "E2" in
+      destruct (INNER f st) as (f' & E1 & E2);
+      [ simpl; simpl in *; lia
+      | rewrite E1; clear E1; destruct_pairs; rt_unfold; cbn [fst snd]; rt_unfold_in E2; cbn [fst snd] in E2 ]
+  end.
+
+Lemma split_on_cons sep s : exists a b, split_on sep s = a :: b.
+Proof. destruct (split_on sep s) eqn:E; [exfalso; exact (split_on_nonempty sep s E) | eauto]. Qed.
+
+Lemma set_yielded_id s : set_yielded (o_yielded s) s = s.
+Proof. destruct s; reflexivity. Qed.
+
+Lemma rfor_yield_done {X F} (body : X -> F -> M (ctl F unit)) (gety : F -> str) :
+  (forall x f s, match body x f s with
+                 | Ok (Normal f') s' => s' = set_yielded (o_yielded s ++ [gety f]) s /\ gety f' = gety f
+                 | _ => False
+                 end) ->
+  forall (l : list X) f s (P : robj -> Prop), P (set_yielded (o_yielded s ++ repeat (gety f) (length l)) s) ->
+  step_done (rfor l body f s) P.
+Proof.
+  intros Hb. induction l as [|x l IH]; intros f s P HP.
+  - cbn in *. rewrite app_nil_r, set_yielded_id in HP. exact HP.
+  - cbn [rfor]. unfold bind at 1. specialize (Hb x f s).
+    destruct (body x f s) as [[f'|?|?|?] s1|]; try contradiction. destruct Hb as [Hs Hg]. subst s1.
+    apply IH. rewrite Hg. cbn [length repeat] in HP. cbn [o_yielded set_yielded]. rewrite <- app_assoc. exact HP.
+Qed.
+
+Lemma bind_ok {A B} (m : M A) (f : A -> M B) s a s' : m s = Ok a s' -> bind m f s = f a s'.
+Proof. intro H. unfold bind. rewrite H. reflexivity. Qed.
+
+Lemma try_catch_ok {A} (m : M A) c h s a s' : m s = Ok a s' -> try_catch m c h s = Ok a s'.
+Proof. intro H. unfold try_catch. rewrite H. reflexivity. Qed.
+
+(* s[-1] not in '<the reader's line ends>' *)
+Ltac to_LBR :=
+  match goal with
+  | |- context [memN ?y ?L] =>
+      replace (memN y L) with (LBR y) by (unfold LBR; apply memN_same; vm_compute; reflexivity)
+  end.
+
+Ltac normalise := rewrite ?pyslice_5_m1, ?py_check_valid_is_model, ?str_eqb_nil_r, ?nonempty_is_nil.
+
+(* the generator, run on any object whose file yields the calls [o_file s] of readline *)
+Theorem read_password_spec : forall cd prefix s fin fuel,
+  rinv cd prefix fuel s ->
+  Rd LBR (cfgR (cd_dec cd) (cd_encb cd) prefix) (o_file s) (proj s) fin ->
+  run_reader (py_read_password ENV fuel) s = Some fin.
+Proof.
+  intros cd prefix s fin fuel HI HR.
+  unfold run_reader, py_read_password.
+  (* the re-joining loop: the loop without a loop inside *)
+  match goal with
+  | |- context [@rwhile ?F ?R ?fu ?cnd ?bdy] =>
+      lazymatch bdy with context [@rwhile] => fail | _ => idtac end;
+      with_proj F F constr:(fun f : F => f) ltac:(fun getp =>
+        assert (INNER : forall f s, (length (o_file s) < fu)%nat ->
+                  exists f', rwhile fu cnd bdy f s = Ok (Normal f') (set_file (snd (absorb LBR (getp f) (o_file s))) s)
+                             /\ getp f' = fst (absorb LBR (getp f) (o_file s)));
+        [ apply (glue_loop LBR getp cnd bdy);
+          [ intros f0 s0; destruct_pairs; rt_unfold; cbn [fst snd];
+            match goal with
+            | |- context [nonempty ?p] =>
+                destruct p as [|y p'] using rev_ind;
+                [ reflexivity
+                | clear IHp'; rewrite ?pystr_index_last, ?substr_single, ?ends_ec_last; to_LBR;
+                  destruct (p' ++ [y]) eqn:Ep; [destruct p'; discriminate | reflexivity] ]
+            end
+          | intros f0 s0; destruct_pairs; destruct s0; rt_unfold; cbn [fst snd];
+            repeat (normalise; destruct_scrut; rt_unfold);
+            eexists; split; reflexivity ]
+        | ]);
+      set (IL := @rwhile F R fu cnd bdy) in *; clearbody IL
+  end.
+  set (C := cfgR (cd_dec cd) (cd_encb cd) prefix) in *.
+  (* the reading loop *)
+  match goal with
+  | |- context [@rwhile ?F ?R ?fu ?cnd ?bdy ?f0] =>
+      assert (OUTER := read_loop LBR C (rinv cd prefix fuel) cnd bdy)
+  end.
+  match type of OUTER with (?A -> ?B -> ?D -> ?G -> _) =>
+    assert (H1 : A); [ intros f0 s0; destruct_pairs; reflexivity | ];
+    assert (H2 : B);
+    [ intros f0 s0 (Hp & He & Hl) Hf; destruct_pairs; destruct s0; cbn in Hp, He, Hl, Hf; subst; rt_unfold;
+      use_inner INNER IL; cbn [absorb is_nil orb fst snd] in E2; subst; cbn [str_eqb]; rt_unfold; reflexivity
+    | ];
+    assert (H3 : D);
+    [ intros f0 s0 r (Hp & He & Hl) Hf; destruct_pairs; destruct s0; cbn in Hp, He, Hl, Hf; subst; rt_unfold;
+      repeat split; simpl; simpl in Hl; lia
+    | ];
+    assert (H4 : G);
+    [ intros f0 s0 l r (Hp & He & Hl) Hf; destruct_pairs; destruct s0; cbn in Hp, He, Hl, Hf; subst;
+      assert (Hr' : (length (snd (absorb LBR l r)) < fuel)%nat)
+        by (eapply Nat.le_lt_trans; [apply absorb_length | simpl in Hl; lia]);
+      remember (fst (absorb LBR l r)) as g eqn:Eg; remember (snd (absorb LBR l r)) as r' eqn:Er';
+      rt_unfold; use_inner INNER IL; rewrite <- Eg in E2; rewrite <- ?Er';
+      match type of E2 with ?v = _ => subst v end;
+      destruct (is_nil g) eqn:Hg;
+      [ destruct g; [|discriminate]; cbn [str_eqb]; rt_unfold; reflexivity
+      | rewrite ?str_eqb_nil_r, ?nonempty_is_nil, Hg; rt_unfold;
+        unfold read_line, take_count, unhex, C;
+        cbv beta iota delta [cfgR r_prefix r_ws r_iws r_dz r_dec r_encb r_rej r_rej_empty r_lb];
+        match goal with
+        | |- context [py_rstrip_chars ?s ?L] =>
+            replace (py_rstrip_chars s L) with (rstrip is_crlf s)
+              by (unfold py_rstrip_chars; apply rstrip_ext; intro; rewrite is_crlf_mem; apply memN_same; vm_compute; reflexivity)
+        end;
+        unfold py_lstrip, py_split_char, py_join_char, py_startswith, py_endswith, is_hex_shaped, hex_prefix, SP;
+        cbv beta iota delta [ENV e_ws e_iws e_dz];
+        normalise;
+        match goal with
+        | |- context [split_on ?c ?t] =>
+            let a := fresh "a" in let b := fresh "b" in let Hs := fresh "Hs" in
+            destruct (split_on_cons c t) as (a & b & Hs); rewrite ?Hs
+        end;
+        rewrite ?pyindex_0_cons, ?pyslice_1_cons; cbn [hd tl];
+        destruct prefix; rt_unfold;
+        repeat (normalise; rewrite ?pyindex_0_cons, ?pyslice_1_cons; destruct_scrut; rt_unfold);
+        tryif (lazymatch goal with |- step_done (rfor _ _ _ _) _ => idtac end) then
+          (lazymatch goal with
+           | |- step_done (@rfor ?X ?F ?R ?l ?body ?fr0 ?st) ?P =>
+               with_proj F F constr:(fun f : F => f) ltac:(fun gety =>
+                 apply (rfor_yield_done body gety);
+                 [ intros ? ? ?; destruct_pairs; rt_unfold; cbn [fst snd]; split; reflexivity | ])
+           end)
+        else idtac;
+        cbv beta iota delta [step_done]; unfold rinv, proj, app_line; rt_unfold; cbn [fst snd out npw nerr];
+        rewrite ?zrange_length, ?Z.sub_0_r;
+        (split; [repeat split; assumption | split; reflexivity])
+      ]
+    | ]
+  end.
+  match goal with
+  | |- context [@rwhile ?F ?R ?fu ?cnd ?bdy ?f0] =>
+      destruct (OUTER H1 H2 H3 H4 fuel f0 s fin HI (proj2 (proj2 HI)) HR) as (s' & E & Ep)
+  end.
+  erewrite bind_ok; [| apply try_catch_ok; exact E]. unfold fn_end, ret. rewrite <- Ep. reflexivity.
+Qed.
+
+(* ================================================================ the generated reader = the model *)
+
+(* what codecs readline delivers for a decoded text: the lines of
+   str.splitlines(keepends=True), no decoding error (errors='surrogateescape') *)
+Definition codecs_lines (text : str) : list rline := map RLine (lines_keep LB text).
+
+Lemma LBR_sub_LB : forall c, LBR c = true -> LB c = true.
+Proof.
+  assert (A : forallb LB reader_linebreaks = true) by (vm_compute; reflexivity).
+  rewrite forallb_forall in A. intros c H. apply A. apply memN_In. exact H.
+Qed.
+
+Lemma app_rout_empty o : app_rout {| out := []; npw := 0; nerr := 0 |} o = o.
+Proof. apply rout_ext; reflexivity. Qed.
+
+(* read_password, translated from the source, run to exhaustion on the object
+   __init__ (translated from the source) builds: the model's read_text *)
+Theorem source_read_password_is_model : forall name cd prefix text fuel,
+  (length (lines_keep LB text) < fuel)%nat ->
+  run_reader (py_read_password ENV fuel) (py_init name cd prefix (codecs_lines text)) =
+  Some (read_text (cfgR (cd_dec cd) (cd_encb cd) prefix) text).
+Proof.
+  intros name cd prefix text fuel Hf.
+  apply (read_password_spec cd prefix).
+  - unfold rinv, py_init, codecs_open_r_surrogateescape, codecs_lines. cbn. rewrite map_length. auto.
+  - unfold read_text. change (r_lb (cfgR (cd_dec cd) (cd_encb cd) prefix)) with LBR.
+    rewrite <- (glue_lines_keep LBR LB LBR_sub_LB text).
+    replace (proj (py_init name cd prefix (codecs_lines text))) with {| out := []; npw := 0%Z; nerr := 0%Z |}
+      by (unfold py_init, proj; reflexivity).
+    rewrite <- (app_rout_empty (read_lines _ (glue LBR (lines_keep LB text)))).
+    replace (o_file (py_init name cd prefix (codecs_lines text))) with (map RLine (lines_keep LB text))
+      by (unfold py_init, codecs_open_r_surrogateescape; reflexivity).
+    apply (Rd_pieces LBR _ (length (lines_keep LB text))); [apply le_n | apply lines_keep_pieces_nonempty].
+Qed.
+
+(* the fuel the statements below give the translated loop: more than the number of lines *)
+Definition source_reader (cd : codec) (prefix : bool) (text : str) : option rout :=
+  run_reader (py_read_password ENV (S (length text))) (py_init [] cd prefix (codecs_lines text)).
+
+Theorem source_reader_is_model : forall cd prefix text,
+  source_reader cd prefix text = Some (read_text (cfgR (cd_dec cd) (cd_encb cd) prefix) text).
+Proof.
+  intros. apply source_read_password_is_model. apply Nat.lt_succ_r. apply lines_keep_length.
+Qed.
+
+(* never out of fuel, no exception escapes, whatever the file contains *)
+Theorem source_reader_total : forall cd prefix text, source_reader cd prefix text <> None.
+Proof. intros. rewrite source_reader_is_model. discriminate. Qed.
+
